@@ -288,14 +288,15 @@ impl IoReader {
 //@@ qmark
 //@@ subst `self.buf.resize(len, 0)` => `{ let ghost av = self.buf@.len() + self.reader.rest@.len(); vec_resize_zeroed(&mut self.buf, len, Ghost(av)) }` rule=optional-R9
 //@@ subst `self.reader.read_exact(&mut self.buf[l..])` => `self.reader.read_exact_tail(&mut self.buf, l)` rule=optional-R9
-//@@ subst `let mut limited = io::Read::take(&mut self.reader, missing);` => `` rule=optional-R9
-//@@ subst `io::Read::read_to_end(&mut limited, &mut self.buf)` => `self.reader.take_read_to_end(missing, &mut self.buf)` rule=optional-R9
+//@@ subst `io::Read::take(&mut self.reader,` => `take_limit(` rule=optional-R9
+//@@ subst `io::Read::read_to_end(&mut limited, &mut self.buf)` => `self.reader.take_read_to_end(limited, &mut self.buf)` rule=optional-R9
 //@@ subst `io::Error::new( io::ErrorKind::UnexpectedEof, "failed to fill whole buffer", )` => `eof_error()` rule=optional-R9
 //@@ spec
     ensures
         final(self).consumed == old(self).consumed,
         r is Ok ==> final(self).buf@.len() >= len && final(self).buf@ + final(self).reader.rest@ =~= old(self).buf@ + old(self).reader.rest@,   // [C20.reader.peek-does-not-consume] filling the peek buffer moves bytes from the stream into the buffer, in order, and loses none
         final(self).buf@.len() <= old(self).buf@.len() + (old(self).reader.rest@.len() - final(self).reader.rest@.len()),     // [C04.ioreader.buffer-holds-only-stream-bytes] success or failure, the peek buffer never grows beyond the bytes the stream actually supplied: a declared length cannot make it allocate
+        r is Ok ==> final(self).buf@.len() == (if old(self).buf@.len() >= len { old(self).buf@.len() } else { len as nat }),   // [C20.reader.peeks-no-more-than-asked] the peek buffer is filled up to what was asked for and no further: nothing beyond the value being decoded is taken off the stream (what follows it -- a transfer's payload after its performative -- stays in the stream)
         is_suffix(final(self).reader.rest@, old(self).reader.rest@),
         final(self).reader.reliable == old(self).reader.reliable, old(self).reader.reliable@ && len <= old(self).buf@.len() + old(self).reader.rest@.len() ==> r is Ok,   // [C05.reader.available-bytes-are-delivered]
 //@@ end
@@ -502,6 +503,8 @@ pub open spec fn bounded<R: Read>(r: R) -> bool { r.wf() && r.consumed() + r.unr
     ensures final(reader).wf(), r is Ok ==> took(*old(reader), *final(reader), r->Ok_0@) && sp_value_len(old(reader).unread()) == Some(r->Ok_0@.len() as int),   // [C20.scan.exact] LazyValue / byte_buf scanning takes exactly one encoded value off the reader, whatever follows it stays
 //@@ end
 
+/// `io::Read::take(&mut reader, limit)` is reduced to its limit: the adaptor is consumed by the read_to_end that follows (R9)
+pub fn take_limit(limit: u64) -> (r: u64) ensures r == limit { limit }
 /// Vec::append
 #[verifier::external_body]
 pub fn vec_append(a: &mut Vec<u8>, b: &mut Vec<u8>)
